@@ -22,6 +22,7 @@ from gym_gridverse.grid_object import (
 )
 
 from .. import enc, gen
+from ..custom_objects import Curtain
 from ..monitor import call_real, describe_exc, raised_by_harness, reach
 from ..scripted_rng import enumerate_outcomes
 
@@ -36,8 +37,8 @@ LEVEL_TEXT = ('Every call of every built-in reset function (through the real fac
               'advertised inventory. For the smallest accepted shapes of each function all random outcomes are enumerated with '
               'the scripted generator (exhaustive per shape).'
               ' Also: layouts with zero or negative room counts, long layouts (up to 71 cells x 15 rooms), the grid run twice in shuffled orders.')
-LEVEL_NOTE = ('Trusted: the predicates in this module. Layout entries < 1, non-integer parameters and river object types other '
-              'than Wall are outside the documented domain and not generated; crossing truncating num_rivers is accepted.')
+LEVEL_NOTE = ('Trusted: the predicates in this module. Layout entries < 1, non-integer parameters and river object types that need constructor arguments or are part of the advertised inventory (Exit, Telepod ...) '
+              'are outside the documented domain and not generated (rivers of Wall, MovingObstacle and a user-defined type are); crossing truncating num_rivers is accepted.')
 SHARDS = {'quick': 4, 'thorough': 16}
 BUDGET_S = {'quick': 300, 'thorough': 2400}
 RULE = ('case = (reset function, parameters, seed or random-choice script). non-trivial = accepted parameters with at least one '
@@ -147,8 +148,13 @@ def pred_keydoor(state, p):
     return why
 
 
+RIVERS = {'Wall': Wall, 'MovingObstacle': MovingObstacle, 'Curtain': Curtain}
+
+
 def pred_crossing(state, p):
-    why = common(state, p['shape']) + only_types(state, {Wall, Floor, Exit})
+    # rivers of another type than Wall (the library's own tests and C14 use MovingObstacle) leave everything else as stated:
+    # shape, unbroken *wall* boundary, agent placement, one exit
+    why = common(state, p['shape']) + only_types(state, {Wall, Floor, Exit, RIVERS[p.get('river', 'Wall')]})
     if count(state, Exit) != 1:
         why.append(f'{count(state, Exit)} exits')
     return why
@@ -215,7 +221,7 @@ def to_kwargs(name, p):
     if 'colors' in k:
         k['colors'] = set(k['colors'])
     if name == 'crossing':
-        k['object_type'] = Wall
+        k['object_type'] = RIVERS[k.pop('river', 'Wall')]
     return k
 
 
@@ -319,6 +325,9 @@ def param_grid(name, shapes, rng, thorough):
         elif name == 'crossing':
             for n in (-1, 0, 1, 2, 3, 50):
                 yield {'shape': shape, 'num_rivers': n}
+            for river, ns in (('MovingObstacle', (1, 2, 50)), ('Curtain', (1, 3))):
+                for n in ns:
+                    yield {'shape': shape, 'num_rivers': n, 'river': river}
         elif name == 'memory':
             for cs in COLOR_SETS:
                 yield {'shape': shape, 'colors': cs}
